@@ -313,17 +313,12 @@ def check_scenario(ctx, case):
         else:
             ctx.ok('interval-change-effective')
         # (2) every polled parameter is refreshed within a bounded multiple of the slow interval
-        for mobj, rfunc, pobj in m.pollInfo.polled_parameters:
-            fname = rfunc.__name__
-            logname = {'read_value': 'read_value'}.get(fname, fname)
-            mt = re.fullmatch(r'read_p(\d+)', fname)
-            flag = ms['params'][int(mt.group(1))]['flag'] if mt and int(mt.group(1)) < len(ms['params']) else None
-            via = {'handler': 'read_handler', 'common': 'read_common'}.get(flag, logname)
-            if fname not in ('read_value',) and flag is None:
-                continue      # inherited parameters without an own read function (pollinterval, ...)
+        # (which parameters are polled follows from the declaration - not from the list the poll thread made for itself)
+        expected_polled = [('read_value', 'read_value')] + \
+            [(f'read_p{j}', {'handler': 'read_handler', 'common': 'read_common'}.get(p_['flag'], f'read_p{j}'))
+             for j, p_ in enumerate(ms['params']) if p_['flag'] in ('poll', 'handler', 'common')]
+        for fname, via in expected_polled:
             ts = [t for t, n, f, _ in log if n == name and f == via]
-            if fname == 'read_status':
-                continue
             bound = 3 * ms['slowinterval'] + 2 * max(npolled, 1) * S + EPS
             gaps = [b - a for a, b in zip(ts, ts[1:])] + ([horizon - ts[-1]] if ts else [])
             if not ts:
